@@ -235,6 +235,17 @@ func init() {
 			{`<% let g = fn() { return nil } %><%= g() == nil %>|<%= if (g()) { %>T<% } else { %>F<% } %>`, "true|F"},
 			{`<% let x = 5 %><% let g = fn(x) { let x = x + 1
  return x } %><%= g(1) %>|<%= x %>`, "2|5"},
+			// a function WITHOUT parameters still runs its body in a scope of its own: its lets neither
+			// overwrite a caller's parameter or variable of the same name nor stay visible after the call
+			{`<% let two = fn() { let a = 2
+ return a } %><% let g = fn(a) { if (two() == 2) { return a } return "?" } %>[<%= g(1) %>][<%= g("x") %>]`, "[1][x]"},
+			{`<% let n = 10 %><% let bump = fn() { let n = 99
+ return n } %><%= bump() %>|<%= n %>|<%= bump() + n %>`, "99|10|109"},
+			{`<% let mk = fn() { let tmp = "t"
+ return tmp + "!" } %><%= mk() %>|<%= if (tmp) { %>leaked<% } else { %>gone<% } %>`, "t!|gone"},
+			{`<% let outer = fn(v) { let inner = fn() { let v = "in"
+ return v }
+ return inner() + "/" + v } %><%= outer("out") %>`, "in/out"},
 		}
 		for _, f := range fixed {
 			judge("fixed", f[0], f[1], nil)
